@@ -142,13 +142,14 @@ void generate(uint64_t seed, const Str& profile, Desc& d, bool exceptions) {
     if (f.special_tc) for (int g = 0; g < nGroups; g++) if (world.chance(1, 2)) gfiles[g] = Str("d/it's[") + (char)('a' + g) + "]|x.cpp";
 
     int opLine = 1000;
+    bool emptyTestName = (f.alphaNames && world.chance(1, 8)) || ((f.teamcity || f.junit) && world.chance(1, 12));      // and the test name ""
     for (int t = 0; t < nTests; t++) {
         Group T; T.tag = "test";
         int g = grouped ? (nTests ? t * nGroups / nTests : 0) : (int)world.below((uint64_t)nGroups);
         bool ign = f.ignored && world.chance(1, 8);
         line += (int)world.range(1, 20);
         T.args.push_back(ign); T.args.push_back(line);
-        T.sargs.push_back(gnames[(size_t)g]); T.sargs.push_back(pickName(world, f, "t", t, true)); T.sargs.push_back(gfiles[(size_t)g]);
+        T.sargs.push_back(gnames[(size_t)g]); T.sargs.push_back(pickName(world, f, "t", t, true)); if (emptyTestName && world.chance(1, 4)) T.sargs.back() = ""; T.sargs.push_back(gfiles[(size_t)g]);
         for (int ph = 0; ph < 3; ph++) {
             int nOps = (int)world.small(0, 10);
             bool wantFail = f.failures && (faults.below(10) < failDensity);
